@@ -202,6 +202,7 @@ PROPS["C09"] = {
 }
 
 PROPS["C13"] = {
+    "needs_serde_premise": True,
     "alternatives": [{
         "name": "native-roundtrip",
         "clauses": star(DECODERS + ENCODERS + [ER + "check_slice_size", ER + "check_slice_size_atleast", O + "MaskedResponse::deserialize"]), "exclude": {"strict"},
@@ -297,6 +298,7 @@ PROPS["C10"] = {
 }
 
 PROPS["C11"] = {
+    "needs_serde_premise": True,
     "alternatives": [{
         "name": "decoders-only",
         "clauses": star(DECODERS) + [(K + "PublicKey::deserialize", "*"), (K + "PrivateKey::deserialize", "*"), (K + "KeyPair::from_private_key_slice", "*"), (O + "unmask_response", "*"),
